@@ -108,9 +108,10 @@ class C11(core.Check):
         'escape:\\r', 'escape:\\\\', 'escape:\\xHH', 'escape:quote', 'other-quote-inside', 'quote:double', 'quote:single',
         'string:.byte', 'string:.cstr', 'string:.asciiz', 'string:embedded', 'string:empty', 'terminator:0',
         'terminator:nonzero', 'fill:count-0', 'fill:count-1', 'fill:count-many', 'fill:value-negative', 'fill:value->255',
-        'zero:count-0', 'zero:count-many', 'zerountil:below', 'zerountil:just-below', 'zerountil:at', 'zerountil:above']}
+        'zero:count-0', 'zero:count-many', 'zerountil:below', 'zerountil:just-below', 'zerountil:at', 'zerountil:above',
+        'zero-byte-under-nonzero-image-fill']}
 
-    def build(self, rng, force=None, charfirst=False):
+    def build(self, rng, force=None, charfirst=False, fillopt=None):
         endian = rng.choice(['big', 'little'])
         term = rng.choice([0, 0, 0, 10, 13, 255, rng.randrange(0, 256)])
         emb = rng.random() < 0.5
@@ -219,9 +220,15 @@ class C11(core.Check):
         fmt = 'yaml' if rng.random() < 0.1 else 'json'
         fn, text = isamod.render_isa(obj, fmt)
         src = ''.join(l['text'] + '\n' for l in lines)
-        return {'runs': [{'files': {fn: text, 'p.asm': src}, 'argv': ['compile', '-c', fn, 'p.asm', '-o', 'out.bin'],
+        # the gap-fill value of the image is for addresses nothing was assembled to: never for an emitted zero byte
+        if fillopt is None:
+            fillopt = rng.choice([None, None, None, 0, 255, 0xA5, 1])
+        argv = ['compile', '-c', fn, 'p.asm', '-o', 'out.bin']
+        if fillopt is not None and fillopt >= 0:
+            argv += [rng.choice(['-f', '--binary-fill']), str(fillopt)]
+        return {'runs': [{'files': {fn: text, 'p.asm': src}, 'argv': argv,
                           'probes': ['steps', 'sizes'], 'step_limit': 2_000_000}],
-                'meta': {'lines': [{k: v for k, v in l.items() if k in ('k', 'text', 'addr', 'size', 'bytes', 'tags', 'cls', 'sigk')}
+                'meta': {'start': start, 'fill': fillopt if fillopt is not None and fillopt >= 0 else 0, 'lines': [{k: v for k, v in l.items() if k in ('k', 'text', 'addr', 'size', 'bytes', 'tags', 'cls', 'sigk')}
                                    for l in lines], 'endian': endian, 'kind': res.kind},
                 'tags': []}
 
@@ -233,7 +240,7 @@ class C11(core.Check):
             force = None
             if i < n_pre:
                 force = [[0.1], [0.5], [0.7], [0.85], [0.95], None][i % 6]
-            yield self.build(rng, force)
+            yield self.build(rng, force, fillopt=[-1, 255, -1, 0xA5][(i // 6) % 4] if i < n_pre else None)
         # a list whose first item is a quoted character: dedicated one-line programs (the data-line grammar reads the
         # text between the first and the last quote as a string)
         for i in range(40 if tier == 'quick' else 400):
@@ -275,9 +282,17 @@ class C11(core.Check):
         mm = ((o.get('probes') or {}).get('sizes') or {}).get('mismatch')
         if mm:
             vs.append(core.violated('reserved!=emitted', {'mismatch': mm[:3]}))
+        fb = m.get('fill', 0)
+        if m.get('start', 0) > 0:
+            gap = data[:m['start']]
+            if gap != bytes([fb]) * m['start']:
+                vs.append(core.violated('gap-below-first-line-not-the-fill-value', {'fill': fb, 'got': gap.hex()[:80]}))
+        opt = 'image-fill:' + ('nonzero' if fb else 'zero')
         for l in m['lines']:
             if l['k'] not in ('data', 'bytes', 'fill', 'zero', 'zerountil') or l.get('sigk') == 'sentinel':
                 continue
+            if l['size'] and fb and '00' in [l['bytes'][i:i + 2] for i in range(0, len(l['bytes']), 2)]:
+                l['tags'] = list(l.get('tags', [])) + ['zero-byte-under-nonzero-image-fill']
             got = data[l['addr']:l['addr'] + l['size']].hex()
             nt = l['sigk'] + '|' + ','.join(sorted(t for t in l.get('tags', []) if not t.startswith('.')))
             if got == l['bytes']:
